@@ -179,3 +179,20 @@ Theorem C16_byte_level_failed_flushes_then_recovery_over_any_buffer : forall t n
         exists c3, flush_f None (flush_attempts lims c1) = FOk c3 /\
                    Rabuf.k_disk c3 = Io.fb (Io.get_file (Io.m_st m') f).
 Proof. exact failed_flushes_then_recovery_over_any_buffer. Qed.
+
+(** ... and for histories that also contain full traversals and statistics calls (Io_wrun_durable.v) *)
+From Aby Require Import Io_wrun Io_wrun_durable.
+Theorem C16_byte_level_failed_flushes_then_recovery_with_traversals_over_any_buffer : forall t n bk bv bh ops,
+  1 <= n -> pow2 n -> Forall (wop_wf t) ops -> wsized (Store.create t n) ops ->
+  exists s' m' outs (cf : Io.fid -> list call),
+    wstore_run (Store.create t n) ops = Ok (s', outs) /\ wagree_run ∅ ops outs /\
+    render s' = Ok (Io.images m') /\
+    forall f c fuel lims,
+      backs c (Io.get_file (Io.empty_st bk bv bh) f) ->
+      (xrun_fuel (Rabuf.k_cs c) (flat_of (Io.get_file (Io.empty_st bk bv bh) f)) (map call_op (cf f)) <= fuel)%nat ->
+      exists c1 couts,
+        Rabuf.crun fuel c (map call_op (cf f)) = Ok (c1, couts) /\
+        R (flush_attempts lims c1) (flat_of (Io.get_file (Io.m_st m') f)) /\
+        exists c3, flush_f None (flush_attempts lims c1) = FOk c3 /\
+                   Rabuf.k_disk c3 = Io.fb (Io.get_file (Io.m_st m') f).
+Proof. exact whistory_failed_flushes_then_recovery_over_any_buffer. Qed.
